@@ -137,3 +137,33 @@ pub fn make_progress(
         num_steps,
     }
 }
+
+// ---- low-rank transformation ----------------------------------------------------------------
+
+/// `LowRankMassMatrix::update` with plain slices (`vecs`: one slice per eigenvector).
+pub fn lowrank_update<M: Math>(
+    mm: &mut LowRankMassMatrix<M>,
+    math: &mut M,
+    stds: &[f64],
+    mean: &[f64],
+    vals: &[f64],
+    vecs: &[Vec<f64>],
+    mean_low_rank: &[f64],
+) {
+    let n = stds.len();
+    let stds = faer::Col::from_fn(n, |i| stds[i]);
+    let mean = faer::Col::from_fn(n, |i| mean[i]);
+    let mu = faer::Col::from_fn(n, |i| mean_low_rank[i]);
+    let vals_c = faer::Col::from_fn(vals.len(), |i| vals[i]);
+    let vecs_m = faer::Mat::from_fn(n, vecs.len(), |i, j| vecs[j][i]);
+    mm.update(math, stds, mean, vals_c, vecs_m, mu);
+}
+
+pub fn lowrank_update_from_grad<M: Math>(
+    mm: &mut LowRankMassMatrix<M>,
+    math: &mut M,
+    pos: &M::Vector,
+    grad: &M::Vector,
+) {
+    mm.update_from_grad(math, pos, grad, 1f64, (1e-20, 1e20));
+}
